@@ -847,3 +847,41 @@ def describe(case):
 
 def extra_evidence():
     return {'compiler_in_the_loop': dict(STATS)}
+
+
+# ---- extraction cross-check: the same cases evaluated inside Coq by vm_compute
+from tools import xenc
+COQ_IMPORTS = 'Base.XEnc Base.Str Model.Poly Model.Parse Model.Macro'
+XCHECK_N = 200
+
+
+def coq_term(case):
+    # crc thinning below XCHECK_N so that every eligible case is taken, whatever its position in the stream
+    # (the decimal -> binary64 conversion of the model is exact big-integer arithmetic: ~0.3 s per long text under vm_compute,
+    # several seconds for numbers of 150 digits, which are therefore left to the executable alone)
+    if not xenc.keep(case, 9):
+        return None
+    t = xenc.Toks(case.line)
+    cmd = t.word()
+    if cmd not in ('simple', 'inter'):
+        return None
+    texts = [t.cpstr() for _ in range(t.int())]
+    if not texts or any(xenc.big_exponent(s) for s in texts):
+        return None
+    if any(re.search(r'[0-9.]{60}', ''.join(chr(c) for c in s)) for s in texts):
+        return None
+    enc = xenc.CQ_ENC_SPOLY if cmd == 'simple' else xenc.CQ_ENC_IPOLY
+    # r1 ## .. ## rk ## x : every ri through enc_res, the expansion x as 0 :: payload | [1; code] | [3] unresolved | [2] panic
+    return ('flat_map (fun s => enc_res %s (@parse_%s float FNum uclass_tab s)) [%s] ++ '
+            'match @macro_%s float FNum uclass_tab (fun s => s) float_reread %s with '
+            '| XValue p => 0 :: %s p | XCompileError e => [1; err_code e] | XUnresolved => [3] | XMacroPanic _ => [2] end'
+            % (enc, cmd, '; '.join(xenc.cq_str(s) for s in texts), cmd, xenc.cq_str(texts[-1]), enc))
+
+
+def encode_result(case, model_line):
+    cmd = case.line.split(' ', 1)[0]
+    pay = xenc.enc_spoly_toks if cmd == 'simple' else xenc.enc_ipoly_toks
+    out = []
+    for part in model_line.split(' ## '):
+        out += [3] if part.strip() == 'unresolved' else xenc.enc_line(part, pay)
+    return out
